@@ -630,3 +630,41 @@ Example failure_example :
                  EnableStreaming; SetTLParamsLocked true] /\
   loop_running (final rs) = false.
 Proof. vm_compute. repeat split. Qed.
+
+(* ---- cached TLParamsLocked is coherent with the device ----------------- *)
+Definition coh (s : cam) : bool :=
+  match ctxt s with
+  | Some c => match c_tl c with Some b => Bool.eqb b (tl_locked s) | None => true end
+  | None => true
+  end.
+
+Lemma call_coh fx c pl s : coh s = true -> coh (r_cam (run_call fx c pl s)) = true.
+Proof.
+  unfold coh. open_call c s; cbn [ctxt c_tl tl_locked]; intros H; crunch;
+    try reflexivity; try exact H; try apply eqb_reflx.
+Qed.
+
+Lemma run_coh fx pl cs : forall i s,
+  coh s = true -> coh (final_from s (run_from fx pl i s cs)) = true.
+Proof.
+  induction cs as [|c cs IH]; intros i s H; cbn [run_from].
+  - exact H.
+  - rewrite final_from_cons. apply IH. apply call_coh. exact H.
+Qed.
+
+Lemma params_value_call fx plc s v :
+  coh s = true -> r_res (run_call fx CParams plc s) = Ok v -> v = Z.b2z (tl_locked s).
+Proof.
+  unfold coh. open_state s; cbn [ctxt c_tl tl_locked]; crunch; intros H E;
+    try discriminate E; apply Ok_inj in E; subst v; try reflexivity.
+  apply eqb_prop in H. subst. reflexivity.
+Qed.
+
+(* whenever a params access returns a value, it is the device's TLParamsLocked: the register
+   cache never holds a stale value, whatever failed before *)
+Theorem params_value fx pl cs plc v :
+  r_res (run_call fx CParams plc (final (run fx pl cs))) = Ok v ->
+  v = Z.b2z (tl_locked (final (run fx pl cs))).
+Proof.
+  apply params_value_call. apply (run_coh fx pl cs 0%nat cam0). reflexivity.
+Qed.
